@@ -223,6 +223,36 @@ func init() {
 			}
 			fmt.Fprintf(w, "def trimRowDropsEmptyRows : Bool := %v\n", inside == 1)
 		}
+		// mergeExpandedCols: the fields compared (keys of the xlsxCol{...} literal handed to DeepEqual)
+		if fd := funcDecl("File", "mergeExpandedCols"); fd == nil {
+			fail("func (*File) mergeExpandedCols")
+		} else {
+			var keys []string
+			maxFromMin := false
+			ast.Inspect(fd.Body, func(n ast.Node) bool {
+				switch x := n.(type) {
+				case *ast.CompositeLit:
+					if id, ok := x.Type.(*ast.Ident); ok && id.Name == "xlsxCol" && len(keys) == 0 {
+						for _, e := range x.Elts {
+							if kv, ok := e.(*ast.KeyValueExpr); ok {
+								keys = append(keys, src(kv.Key))
+							}
+						}
+					}
+				case *ast.AssignStmt:
+					if len(x.Lhs) == 1 && len(x.Rhs) == 1 && src(x.Lhs[0]) == "column.Max" && strings.HasSuffix(src(x.Rhs[0]), "[i-1].Min") {
+						maxFromMin = true
+					}
+				}
+				return true
+			})
+			if len(keys) == 0 {
+				fail("mergeExpandedCols: reflect.DeepEqual(xlsxCol{...}, next) comparison literal")
+			}
+			sort.Strings(keys)
+			fmt.Fprintf(w, "def mergeColsFields : List String := %s\n", c01strList(keys))
+			fmt.Fprintf(w, "def mergeColsMaxFromLastMin : Bool := %v\n", maxFromMin)
+		}
 		w.WriteString("\n")
 	})
 }
